@@ -174,6 +174,11 @@ CHECKS["C06"] = {
     "units": [
         {"name": "msgpipeline", "pkg": "internal/msgpipeline", "run": "^TestVerifC06",
          "overlay": {"verif_c06_test.go": "harness/C06/checks_test.go", "verif_common_test.go": "harness/shared/msgpipeline_common_test.go"}},
+        {"name": "queue", "pkg": "internal/target/queue", "run": "^TestVerifC06Queue$", "go": GO126,
+         "overlay": dict(QUEUE_COMMON, **{"verif_c01_test.go": "harness/C01/queue_test.go", "verif_c10_test.go": "harness/C10/spool_test.go", "verif_c06_test.go": "harness/C06/queue_test.go"}),
+         "overlay_abs": VERIFX, "quick": {"n": 2400, "shards": 16}, "thorough": {"n": 96000, "shards": 16}},
+        {"name": "stateless", "pkg": "internal/check", "run": "^TestVerifC06Stateless$",
+         "overlay": {"verif_c06_test.go": "harness/C06/stateless_test.go"}, "quick": {"n": 16000, "shards": 1}, "thorough": {"n": 160000, "shards": 2}},
     ],
     "quick": {"n": 24000, "shards": 16},
     "thorough": {"n": 960000, "shards": 16},
